@@ -90,11 +90,17 @@ def lanczos_tridiag(
 
     # Copy over alpha_0 and beta_0 to t_mat
     t_mat[0, 0].copy_(alpha_0)
-    t_mat[0, 1].copy_(beta_0)
-    t_mat[1, 0].copy_(beta_0)
+    k = 0
+    if num_iter > 1:
+        t_mat[0, 1].copy_(beta_0)
+        t_mat[1, 0].copy_(beta_0)
 
-    # Compute the first new vector
-    q_mat[1].copy_(r_vec.div_(beta_0.unsqueeze(dim_dimension)))
+        # Compute the first new vector
+        # (on an exact breakdown - the initial vector is an eigenvector - the residual is zero and stays zero)
+        q_mat[1].copy_(r_vec.div_(beta_0.masked_fill(beta_0 == 0, 1).unsqueeze(dim_dimension)))
+        if torch.sum(beta_0.abs() > 1e-6) == 0:
+            # The Krylov space is one-dimensional: we are done
+            num_iter = 1
 
     # Now we start the iteration
     for k in range(1, num_iter):
@@ -118,7 +124,7 @@ def lanczos_tridiag(
             correction = q_mat[: k + 1].mul(correction).sum(0)
             r_vec.sub_(correction)
             r_vec_norm = torch.norm(r_vec, 2, dim=dim_dimension, keepdim=True)
-            r_vec.div_(r_vec_norm)
+            r_vec.div_(r_vec_norm.masked_fill(r_vec_norm == 0, 1))
 
             # Get next beta value
             beta_curr = r_vec_norm.squeeze_(dim_dimension)
@@ -137,7 +143,7 @@ def lanczos_tridiag(
                 correction = q_mat[: k + 1].mul(correction).sum(0)
                 r_vec.sub_(correction)
                 r_vec_norm = torch.norm(r_vec, 2, dim=dim_dimension, keepdim=True)
-                r_vec.div_(r_vec_norm)
+                r_vec.div_(r_vec_norm.masked_fill(r_vec_norm == 0, 1))
                 inner_products = q_mat[: k + 1].mul(r_vec.unsqueeze(0)).sum(dim_dimension)
 
             # Update q_mat with new q value
